@@ -22,14 +22,14 @@ static long long frozenRef(const Circuit &state, const std::vector<CellOrientati
 }
 
 static void optCase(Rng &rng, CaseResult &r, unsigned mask) {
-  std::string profile = rng.pick(std::vector<std::string>{"general", "rowhigh-any", "nets", "obstruction", "polarity", "multirow", "turned"});
+  std::string profile = rng.pick(std::vector<std::string>{"general", "rowhigh-any", "nets", "obstruction", "polarity", "multirow", "turned", "crowded"});
   GenOpts o = makeProfile(rng, profile);
   o.utilHi = 0.8;
   Circuit c0 = genCircuit(rng, o);
   std::string pdesc;
   ColoquinteParameters params = genParams(rng, false, &pdesc);
   Features f = features(c0);
-  int nOps = (int)rng.range(1, 8);
+  int nOps = rng.chance(0.1) ? (int)rng.range(9, 24) : (int)rng.range(1, 8);
   struct Op { int kind, a, b; };
   std::vector<Op> ops;
   std::ostringstream od;
